@@ -31,11 +31,26 @@ func mentionsNewer(t string, n int) bool {
 }
 
 // simplifyRef rewrites (sref (mk-slice R O L)) to R.
-func simplifyRef(r string) string {
+func (x *Exec) simplifyRef(r string) string {
+	for k := 0; k < 6; k++ {
+		// expand an abbreviation: NAME or (sref NAME)
+		if d, ok := x.smt.defs[r]; ok {
+			r = d
+			continue
+		}
+		if strings.HasPrefix(r, "(sref ") && strings.HasSuffix(r, ")") {
+			inner := r[len("(sref ") : len(r)-1]
+			if d, ok := x.smt.defs[inner]; ok {
+				r = "(sref " + d + ")"
+				continue
+			}
+		}
+		break
+	}
 	const p = "(sref (mk-slice "
 	if strings.HasPrefix(r, p) {
 		if a, ok := firstSExpr(r[len(p):]); ok {
-			return a
+			return x.simplifyRef(a)
 		}
 	}
 	return r
